@@ -250,7 +250,9 @@ def run_sampling(case):
         if dict(res) != dict(res2):
             raise Violation("sample_N_outputs: same seed gave different results", key="seed-not-reproducible")
         pval = None
-        if N >= 2000:
+        if N >= 2000 and p_acc >= 1e-5:
+            # below that the documented 1e-9 truncation of single patterns is no longer negligible relative
+            # to the accepted mass; the deterministic clauses above are still asserted
             pval = chi_square({tuple(k): v for k, v in res.items()}, acc, N, "sample_N_outputs frequencies")
         rejecting = p_acc < 0.95
     elif method == "sample":
